@@ -366,6 +366,28 @@ func (in *inst) walk(fn string, n ast.Node) {
 }
 
 func (in *inst) stmt(fn string, st ast.Stmt) {
+	switch cc := st.(type) {
+	case *ast.CaseClause:
+		// the body of a switch is a block of case clauses: no statement can
+		// be put in front of "case"; the clause body is visited by walk on
+		// its own. Calls in the case expressions are wrapped without a point.
+		for _, e := range cc.List {
+			ast.Inspect(e, func(n ast.Node) bool {
+				switch n := n.(type) {
+				case *ast.FuncLit:
+					return false
+				case *ast.CallExpr:
+					if in.callee(n) != "" {
+						in.wrap(fn, n)
+					}
+				}
+				return true
+			})
+		}
+		return
+	case *ast.CommClause:
+		return
+	}
 	calls := in.ownCalls(st)
 	if len(calls) == 0 {
 		return
